@@ -65,7 +65,7 @@ theorem taxDist_resolveKeys {t : Taxo} (ha : AliasOK t) : ∀ (kws acc : List (N
     cases hk : resolve t k with
     | none => simp [resolveKeys, taxDist, hk]
     | some x =>
-      have := ih (setW acc x w)
+      have := ih (addW acc x w)
       simp only [resolveKeys] at this
       simp [resolveKeys, taxDist, hk, resolve_idem ha hk, this]
 
